@@ -1,15 +1,37 @@
-"""C08 - axis ranges and the user/design/normalized mapping survive into fvar and avar."""
-from . import srccheck
+"""C08 - axis ranges and the user/design/normalized mapping survive into fvar and avar.
+
+Two monitors: (a) API level - random strictly increasing maps through fontdrasil::coords::CoordConverter against an own
+piecewise-linear model (vapi c08, rlimited children); (b) end to end - generated axis sets compiled by the CLI, fvar/avar
+evaluated by the own evaluator (voracle src)."""
+from . import apirun, srccheck
 
 OPTS = [(), ("--no-production-names",)]
 RULE = ("generated axis sets (1-3 axes; 2-9 map nodes; default at min / max / inside; non-integer nodes; slopes 0.05-20; flat segments; identity maps) "
         "in tiny fonts compiled by the CLI; fvar bounds compared with the source, avar(defaultNormalize(u)) compared with the source's own "
         "piecewise-linear map + design normalization at nodes, segment interiors and a grid (bound 1.5 x 2^-14 x (1+slope)); -1/0/+1 entries, "
-        "monotonicity, instance coordinates in range; non-trivial = user coordinates evaluated on axes with a non-identity map")
+        "monotonicity, instance coordinates in range; plus the CoordConverter API on random maps (every conversion against an own model, round "
+        "trips, exact -1/0/+1 anchors, monotonic normalization); non-trivial = user coordinates evaluated on axes with a non-identity map")
+
+
+def api(chk, bins, tier):
+    n = 1500 if tier == "quick" else 60000
+    tot = {"maps": 0, "points": 0, "nontrivial": 0}
+    for seed, res, err in apirun.run_children(bins["vapi"], "c08", [chk.seed * 100 + k for k in range(16)], n):
+        if res is None:
+            if err == "watchdog":
+                chk.inconc({"seed": seed, "why": err})
+            else:
+                chk.violation("api:child-died", f"vapi c08 seed {seed}: {err}", replay={"seed": seed, "n": n})
+            continue
+        for k in tot:
+            tot[k] += res.get(k, 0)
+        for v in res["violations"]:
+            chk.violation("api:" + srccheck.sig_of(v["what"]), f"CoordConverter (map {v['map']}, default index {v['default']}): {v['what']}", replay={"seed": seed, "case": v.get("case"), "map": v["map"]})
+    chk.coverage.update({"c08_api_maps": tot["maps"], "c08_api_points": tot["points"]})
 
 
 def run(tier):
-    return srccheck.run_prop("C08", tier, 150, 4000, OPTS, None, "c08_coords", RULE)
+    return srccheck.run_prop("C08", tier, 150, 4000, OPTS, None, "c08_coords", RULE, pre=api)
 
 
 def replay(path):
